@@ -110,7 +110,8 @@ func (w *World) RunCase(n int, q Q, r *rand.Rand, bigLen int) Line {
 	fl, tail, chunks := frame(q, b, r)
 	lines = append(lines, fl...)
 	tgt := target(q, r)
-	raw := wire(m, tgt, host, lines, tail)
+	conn := connTokens(q, r)
+	raw := wireConn(m, tgt, host, lines, tail, conn)
 
 	w.Back.Reset()
 	to := 10 * time.Second
@@ -120,7 +121,7 @@ func (w *World) RunCase(n int, q Q, r *rand.Rand, bigLen int) Line {
 	status, _, err := rawDo(px.Addr, raw, m, to)
 	got := w.Back.Got()
 
-	conc := &Conc{Host: host, Method: m, Target: tgt, Lines: lines, Cookies: sent, BodyLen: len(b), Chunks: chunks, Status: status,
+	conc := &Conc{Host: host, Method: m, Target: tgt, Lines: append(lines, HdrLine{"Connection", conn}), Cookies: sent, BodyLen: len(b), Chunks: chunks, Status: status,
 		Session: map[string]interface{}{"user": sess.User, "email": sess.Email, "groups": sess.Groups, "access_token": sess.AccessToken}}
 	if len(chunks) > 12 {
 		conc.Chunks = chunks[:12]
@@ -311,7 +312,14 @@ func RunCells(in, out string, seed int64, sample, reps, workers, base int, noshu
 		rng.Shuffle(len(idx), func(i, j int) { idx[i], idx[j] = idx[j], idx[i] })
 	}
 	if sample > 0 && sample < len(idx) {
-		idx = idx[:sample]
+		// the small families are never sampled away
+		keep := idx[:sample]
+		for _, ci := range idx[sample:] {
+			if f := cells[ci].Q.Fam; f == "hop" || f == "mini" {
+				keep = append(keep, ci)
+			}
+		}
+		idx = keep
 	}
 	if reps < 1 {
 		reps = 1
